@@ -520,6 +520,11 @@ fn gen_script(rng: &mut Rng, tier: Tier) -> Script {
         3 => lines.push(format!("trap 'mark tb U2{guard}; mark te U2' USR2 2>/dev/null; echo \"trap=$?\"")),
         _ => {}
     }
+    // an EXIT trap: runs exactly once, after the signal traps that are still
+    // pending when the shell leaves (its output is part of the compared stdout)
+    if rng.below(3) == 0 {
+        lines.push("trap 'echo exit-trap \"?=$?\"' EXIT".into());
+    }
     lines.push("mark armed".into());
     let n = rng.range(
         3,
